@@ -124,10 +124,17 @@ def own_checks(ops, answers):
         if a.startswith("panic(") or a == "bad-op":
             bad.append((i, "the workload case did not complete: " + a))
             continue
-        if toks[1] in ("det", "inverse"):
-            m = re.fullmatch(r"bits=(\S+) again=(\S+)", a)
-            if not m or m.group(1) != m.group(2):
-                bad.append((i, "the same computation repeated in the same process gave different bits"))
+        if toks[1] in ("det", "inverse", "length", "qr"):
+            ms = re.findall(r"bits=(\S+) again=(\S+)", a)
+            if not ms or any(x != y for x, y in ms):
+                bad.append((i, "the same computation repeated in the same process (on buffers at other "
+                               "addresses) gave different bits"))
+        elif toks[1] == "crosslist":
+            m = re.fullmatch(r"same=(\d+) other_same_thread=(\d+)/(\d+) cross_thread=(\d+)/(\d+)", a)
+            k = int(toks[2])
+            if not m or int(m.group(1)) != 3 * k or m.group(2) != m.group(3) or m.group(4) != m.group(5):
+                bad.append((i, "operations across different WengertLists were not all refused (lists created "
+                               "on different threads are treated like one list), or a list refused itself"))
         elif toks[1] == "autodiff":
             parts = [p.strip() for p in a.split("|")]
             if len(parts) == 3:
